@@ -146,6 +146,19 @@ def c_findvwLTE(chk):
         chk.vc(f"findvwLTE.root-in-window.{i}", p.pc + [Le(vMin, vmax)], And(Ge(v, vMin), Le(v, vmax)), func=fn)
     if min(kinds.values()) == 0:
         chk.undecided.append(f"findvwLTE: path classes missing {kinds}")
+    # the two closures: mismatch of the shock temperature, and the front-at-wall test that caps the window
+    # (v+ vw = cs^2 of the phase in front of the wall at T+)
+    vwx = real("vwx")
+
+    def env(it):
+        hy = make_hydro()
+        return {"self": hy}, {"hy": hy}
+    for nm, want in (("shockTnuclDiff", lambda: Tsh(vwx, F["vp"](vwx), F["Tp"](vwx)) - Tn),
+                     ("shock", lambda: F["vp"](vwx) * vwx - H["csq"](F["Tp"](vwx)))):
+        for k, q in enumerate(sel(chk.summarize_closure(MODULE, "Hydrodynamics.findvwLTE", nm, env,
+                                                        lambda it, cap: ([vwx], {}), registry=reg))):
+            chk.vc(f"findvwLTE.{nm}.definition.{k}", q.pc, Eq(q.value, want()), func=fn + f".<{nm}>")
+            chk.canary(f"findvwLTE.{nm}.definition.{k}", q.pc, Eq(q.value, want() + 1), func=fn + f".<{nm}>")
     # history independence of the flag: the pre-state flag is a Stale value; reading it would emit the failing
     # frame obligation findvwLTE.no-read-of-stale-state.* (see wgvc.interp.Stale)
     chk.notes.append(f"findvwLTE: {len(paths)} paths explored with a stale pre-state success flag")
